@@ -77,7 +77,10 @@ def is_facebook_post_url(url):
 
 
 def is_facebook_link(url):
-    splitted = safe_urlsplit(url)
+    try:
+        splitted = safe_urlsplit(url)
+    except ValueError:
+        return False
 
     if not splitted.hostname or ".facebook." not in splitted.hostname:
         return False
@@ -106,7 +109,10 @@ def convert_facebook_url_to_mobile(url):
 
     has_protocol = safe_url == url
 
-    scheme, netloc, path, query, fragment = urlsplit(safe_url)
+    try:
+        scheme, netloc, path, query, fragment = urlsplit(safe_url)
+    except ValueError:
+        netloc = ""
 
     if "facebook" not in netloc:
         raise TypeError(
@@ -277,25 +283,27 @@ class FacebookPhoto(FacebookParsedItem):
 
     @property
     def url(self):
-        if self.group_id:
-            return urljoin(
-                BASE_FACEBOOK_URL,
-                "/photo.php?fbid=%s&set=g.%s" % (self.id, self.group_id),
-            )
-
         if self.parent_id:
             return urljoin(
                 BASE_FACEBOOK_URL,
-                "/%s/a.%s/%s" % (self.parent_id, self.album_id, self.id),
+                "/%s/photos/a.%s/%s" % (self.parent_id, self.album_id, self.id),
             )
 
         if self.parent_handle:
             return urljoin(
                 BASE_FACEBOOK_URL,
-                "/%s/a.%s/%s" % (self.parent_handle, self.album_id, self.id),
+                "/%s/photos/a.%s/%s" % (self.parent_handle, self.album_id, self.id),
             )
 
-        return urljoin(BASE_FACEBOOK_URL, "/photo.php?fbid=%s" % self.id)
+        url = "/photo.php?fbid=%s" % self.id
+
+        if self.group_id:
+            url += "&set=g.%s" % self.group_id
+
+        if self.album_id:
+            url += "&set=a.%s" % self.album_id
+
+        return urljoin(BASE_FACEBOOK_URL, url)
 
 
 def parse_facebook_url(url, allow_relative_urls=False):
@@ -307,12 +315,18 @@ def parse_facebook_url(url, allow_relative_urls=False):
         and not url.startswith("https://")
         and "facebook." not in url
     ):
-        url = urljoin(BASE_FACEBOOK_URL, url)
+        try:
+            url = urljoin(BASE_FACEBOOK_URL, url)
+        except ValueError:
+            return None
     else:
         if not is_facebook_url(url):
             return None
 
-    splitted = safe_urlsplit(url)
+    try:
+        splitted = safe_urlsplit(url)
+    except ValueError:
+        return None
 
     if not splitted.path or splitted.path == "/":
         return None
@@ -330,6 +344,9 @@ def parse_facebook_url(url, allow_relative_urls=False):
 
     if "/videos/" in splitted.path:
         parts = pathsplit(splitted.path)
+
+        if len(parts) < 3 or not parts[0] or not parts[2]:
+            return None
 
         return FacebookVideo(parts[2], parent_id=parts[0])
 
@@ -352,21 +369,27 @@ def parse_facebook_url(url, allow_relative_urls=False):
             group_id = next((s for s in sets if s.startswith("g.")), None)
 
             if group_id:
-                group_id = group_id.split("g.", 1)[1]
+                group_id = group_id.split("g.", 1)[1] or None
 
             album_id = next((s for s in sets if s.startswith("a.")), None)
 
             if album_id:
-                album_id = album_id.split("a.", 1)[1]
+                album_id = album_id.split("a.", 1)[1] or None
 
         return FacebookPhoto(query["fbid"][0], group_id=group_id, album_id=album_id)
 
     if "/photos/" in splitted.path:
         parts = pathsplit(splitted.path)
 
+        if len(parts) < 4 or parts[1] != "photos":
+            return None
+
         parent_id_or_handle = parts[0]
         album_id = parts[2].replace("a.", "")
         photo_id = parts[3]
+
+        if not parent_id_or_handle or not album_id or not photo_id:
+            return None
 
         if is_facebook_id(parent_id_or_handle):
             return FacebookPhoto(
@@ -382,11 +405,17 @@ def parse_facebook_url(url, allow_relative_urls=False):
         parts = pathsplit(splitted.path)
 
         if parts[0] == "groups":
+            if len(parts) < 4 or not parts[1] or not parts[3]:
+                return None
+
             group_id_or_handle = parts[1]
 
-            if NUMERIC_ID_RE.match(group_id_or_handle):
+            if is_facebook_id(group_id_or_handle):
                 return FacebookPost(parts[3], group_id=group_id_or_handle)
             return FacebookPost(parts[3], group_handle=group_id_or_handle)
+
+        if len(parts) < 3 or not parts[0] or not parts[2]:
+            return None
 
         parent_id_or_handle = parts[0]
 
@@ -401,17 +430,24 @@ def parse_facebook_url(url, allow_relative_urls=False):
     ):
         query = safe_parse_qs(splitted.query)
         parent_id = query.get("id", None)
+        story_fbid = query.get("story_fbid", None)
 
-        if not parent_id:
+        if not parent_id or not story_fbid:
             return None
 
-        return FacebookPost(query["story_fbid"][0], parent_id=parent_id[0])
+        return FacebookPost(story_fbid[0], parent_id=parent_id[0])
 
     # Group permalink path
     if "/groups/" in splitted.path:
         parts = pathsplit(splitted.path)
 
+        if len(parts) < 2 or parts[0] != "groups" or not parts[1]:
+            return None
+
         if "/permalink/" in splitted.path:
+            if len(parts) < 4 or not parts[3]:
+                return None
+
             if is_facebook_id(parts[1]):
                 return FacebookPost(parts[3], group_id=parts[1])
 
@@ -425,20 +461,25 @@ def parse_facebook_url(url, allow_relative_urls=False):
     # Profile path
     if splitted.path == "/profile.php":
         query = safe_parse_qs(splitted.query)
-        user_id = query["id"][0]
-        return FacebookUser(user_id)
+        user_id = query.get("id", None)
+
+        if not user_id:
+            return None
+
+        return FacebookUser(user_id[0])
 
     # People path
     if splitted.path.startswith("/people"):
         parts = pathsplit(splitted.path)
-        user_id = parts[2]
-        return FacebookUser(user_id)
+
+        if len(parts) >= 3 and parts[0] == "people" and parts[2]:
+            return FacebookUser(parts[2])
 
     # Handle path
     if splitted.path:
         parts = pathsplit(splitted.path)
 
-        if not parts[0].endswith(".php"):
+        if parts and parts[0] not in ("", ".", "..") and not parts[0].endswith(".php"):
             return FacebookHandle(parts[0])
 
     return None
